@@ -5,6 +5,7 @@ import math
 import numpy as np
 
 from .. import core, douglas_lib as dl
+from translator import douglas as td, tables
 
 PRIME = 7919
 TEMPS = [1e-4, 1e-3, 0.03, 0.1, 0.5, 1.0, 10.0, 100.0]
@@ -13,6 +14,24 @@ HOW_ACTIVE = ("m = harness.douglas_lib.build(K, n_cuts, mask, T, X_fit); douglas
               "m.find_active_points(X)  vs  douglas_lib.spec_active(X, cut_points_list)")
 HOW_INFER = ("m = harness.douglas_lib.build(K, n_cuts, mask, T, X_fit); douglas_lib.overwrite(m, cut_points_list, leaf_scores); "
              "m.predict_proba(X) / m._infer(X); m._leaf; m._all_binnings")
+
+
+def regen(ctx):
+    """regenerate Gen/Douglas.lean (`_leaf_binning`, `_merge_leaf`, `_infer`, `_compute_grads` as gemclus/tree/douglas.py says
+    now); Props/C15Gen.lean proves it equal to the hand model Model/Douglas.lean the C15 / C03Douglas / C18 theorems are stated
+    about.  Also called by C03 and C18 (after their own regeneration: the records are merged)."""
+    try:
+        data, text = td.douglas()
+    except (tables.TranslationFailure, SyntaxError, OSError) as e:
+        prev = ctx.extra.get("translation_failure")
+        ctx.extra["translation_failure"] = (prev + "; " if prev else "") + f"douglas: {e}"
+        return None
+    changed = core.write_if_changed(core.LEAN + "/GemVerif/Gen/Douglas.lean", text)
+    units = [f"{u['file']}::{u['class']}.{u['method']} -> Gen/Douglas.lean::{name}" for name, u in data.items()]
+    prev = getattr(ctx, "translation", None) or {"units": [], "regenerated": 0, "identical_to_committed": True}
+    ctx.translation = {"units": list(prev.get("units", [])) + units, "regenerated": prev.get("regenerated", 0) + len(data),
+                       "identical_to_committed": bool(prev.get("identical_to_committed", True)) and not changed}
+    return data
 
 
 # ----------------------------------------------------------------- generators
@@ -192,6 +211,7 @@ def run(ctx):
                 "twins in the same cell); find_active_points on random and adversarial data (no cut inside the range incl. data between two cuts, one "
                 "inside, cut equal to min/max, constant column).  non-trivial: infer case with >= 2 distinct prediction rows; active case with "
                 ">= 2 cuts on a feature or a strict subset of features active.  distinct = hash of (unit, X, parameters)")
+    regen(ctx)              # Gen/Douglas.lean follows the current source before the theorems (C15 + companion C15Gen) are re-checked
     ctx.do_prove()
     quick = ctx.tier == "quick"
     n_main = 60 if quick else 1500
